@@ -455,7 +455,10 @@ def _generate12(rng, index, tier):
         fault["pos"] = rng.randint(0, 6)
     sc = {"engine": "modelsim", "prop": "C12", "mode": "fault12", "model": model, "fault": None if twin else fault,
           "cell": {k: v for k, v in cell.items() if k != "value"}, "route": route, "no_wd": bool(fault and fault.get("no_wd")
-                                                                                               and not twin)}
+                                                                                               and not twin),
+          # history: what the process loaded before (an EEMS 2.0 style file; a program over other libraries), and
+          # whether the client calls run() again after the rejection
+          "preload": rng.choice([None, None, "v2", "v2", "netcdf-program"]), "rerun": rng.random() < 0.35}
     sc.update(sch)
     if sc["no_wd"] is False and fault and fault.get("no_wd"):
         sc["no_wd"] = False
@@ -466,7 +469,7 @@ def _generate12(rng, index, tier):
 TEXT_OPS = ("delete", "duplicate", "swap", "unbalance-open", "unbalance-close", "quote-open", "backslash-x",
             "backslash-u", "backslash-N", "backslash-end", "non-ascii", "nul", "strip-result", "garbage-char",
             "number-exp", "v2-head", "colon-in-list", "empty-arglist")
-CSV_OPS = ("empty", "header-only", "ragged-short", "ragged-long", "non-numeric", "missing-column", "dup-header",
+CSV_OPS = ("odd-field-name", "odd-field-name-missing", "empty", "header-only", "ragged-short", "ragged-long", "non-numeric", "missing-column", "dup-header",
            "truncated", "nul-bytes", "huge", "inf", "nan", "blank-first", "bom", "quoted-cell", "empty-cell")
 FS_OPS = (("open", "in", "ENOENT"), ("open", "in", "EACCES"), ("open", "in", "EMFILE"), ("open", "in", "EIO"),
           ("read", "in", "EIO"), ("open", "out", "EACCES"), ("open", "out", "ENOSPC"), ("open", "out", "EISDIR"),
@@ -510,9 +513,14 @@ def _generate13(rng, index, tier):
             tgt = rng.choice(model["cmds"])
             faults.append({"kind": "exec", "cmd": tgt["name"], "exc": rng.choice(EXEC_EXC)})
     sch = _common_schedule(rng, model, None)
-    sch["layout"]["eol"] = "\n"
+    # line endings: LF mostly; CRLF, CR-only and LF+CR files are legal inputs of from_source too
+    sch["layout"]["eol"] = rng.choice(["\n", "\n", "\n", "\r\n", "\r", "\n\r"])
     route = rng.choice(["lib", "lib", "cli"])
     extra = None
+    followups = []
+    if rng.random() < 0.4:
+        for _ in range(rng.randint(1, 3)):
+            followups.append(["RUN"] if rng.random() < 0.5 else ["GET", rng.randrange(100)])
     r = rng.random()
     if r < 0.04:
         extra = "netcdf-missing-variable"
@@ -521,7 +529,7 @@ def _generate13(rng, index, tier):
         extra = "duplicate-library"
         route = "cli"
     sc = {"engine": "modelsim", "prop": "C13", "mode": "chaos", "model": model, "faults": faults, "route": route,
-          "cell": {k: v for k, v in cell.items() if k != "value"}, "extra": extra}
+          "cell": {k: v for k, v in cell.items() if k != "value"}, "extra": extra, "followups": followups}
     sc.update(sch)
     return sc
 
@@ -589,8 +597,13 @@ def rng_char(n):
     return "!@$%^&*;~`|<>?{}"[n % 16]
 
 
+ODD_NAMES = ("a{b}", "{0}", "100%s", "c{", "%(x)s", "x}y", "{lineno}")
+
+
 def corrupt_csv(text, f):
     lines = text.split("\n")
+    if f["op"] in ("odd-field-name", "odd-field-name-missing"):
+        return text      # handled on the model side (see _odd_field)
     body = [k for k in range(1, len(lines)) if lines[k] != ""]
     op = f["op"]
     if op == "empty":
@@ -717,6 +730,7 @@ def run_once(sc, log, res, route, text, csv, fs_faults, actor, exec_faults, libr
                 else:
                     program = Program.from_source(text, working_dir=wd)
                 mon.install(list(program.command_library.values()))
+                out["program"] = program
                 program.run()
             else:
                 from mpilot.cli.mpilot import main
@@ -900,9 +914,12 @@ def _execute12(sc):
     paths = _paths(model)
     label = _fault_label(fault)
     with Hygiene():
+        _preload(sc, log, res, csv)
         libs = tuple(fault["libraries"]) if fault and fault.get("libraries") else None
         out = run_once(sc, log, res, "lib", text, csv, [], [], [], libraries=libs)
         _judge12(sc, res, log, out, fault, label, paths, "lib")
+        if sc.get("rerun") and fault and out.get("program") is not None and out["outcome"] == "raise":
+            _rerun12(sc, res, log, out, fault, label)
         if sc["route"] == "cli" and not sc.get("no_wd"):
             start = log.seq
             out2 = run_once(sc, log, res, "cli", text, csv, [], [], [])
@@ -926,6 +943,64 @@ def _execute12(sc):
     if sc["route"] == "cli":
         res.probe("CLI route")
     return res
+
+
+def _preload(sc, log, res, csv):
+    """Something the same process did earlier: it must not change what is accepted afterwards."""
+    from mpilot.program import Program
+    kind = sc.get("preload")
+    if not kind:
+        return
+    log.emit("preload", kind=kind)
+    try:
+        if kind == "v2":
+            col = sc["model"]["table"]["columns"][0]["name"]
+            fs = SimFS(log, None, files={sc["model"]["table"]["path"]: csv}, dirs=[WORK])
+            with fs, StdCapture(log):
+                p = Program.from_source('READ(InFileName = "%s", InFieldName = %s)\nCOPYFIELD(InFieldName = %s, NewFieldName = K)\n'
+                                        % (sc["model"]["table"]["path"], col, col), working_dir=WORK)
+                p.run()
+        elif kind == "netcdf-program":
+            Program(libraries=NC_LIBS)
+        res.probe("earlier in the process: " + kind)
+    except Exception as exc:  # noqa
+        res.observe("preload failed: %s" % type(exc).__name__)
+
+
+def _rerun12(sc, res, log, first, fault, label):
+    """The client calls run() again on the rejected program: it must be rejected again, before any side effect."""
+    program = first["program"]
+    fs = first["fs"]
+    mon = first["monitor"]
+    start = log.seq
+    execs0 = sum(mon.counts.values())
+    muts0, wo0 = fs.mutations, fs.write_opens
+    mon.install(list(program.command_library.values()))
+    exc = None
+    with fs, StdCapture(log) as cap:
+        try:
+            program.run()
+        except SimAbort:
+            return
+        except Exception as e:  # noqa
+            exc = e
+        finally:
+            mon.uninstall()
+    log.emit("rerun", exc=type(exc).__name__ if exc else None)
+    res.probe("run() called again on a rejected program")
+    if exc is None:
+        res.violate("C12.reject", _sig12("reject accepted-on-second-run", fault),
+                    "model with fault [%s] was rejected by the first run() and accepted by the second" % label)
+        return
+    why = check_expected(exc, fault)
+    if why is not None:
+        res.violate("C12.error", _sig12("error wrong-rejection-on-second-run", fault, exc),
+                    "second run(): fault [%s] rejected with %s: %s" % (label, type(exc).__name__, why))
+    execs = sum(mon.counts.values()) - execs0
+    if execs or fs.mutations != muts0 or fs.write_opens != wo0 or cap.out.getvalue():
+        res.violate("C12.effects", _sig12("effects side-effect-on-second-run", fault),
+                    "second run() of the rejected model with fault [%s]: %d commands executed, %d file changes, %d "
+                    "write-opens before the rejection" % (label, execs, fs.mutations - muts0, fs.write_opens - wo0))
 
 
 def _fault_label(fault):
@@ -1029,12 +1104,39 @@ def _execute13(sc):
             apply_fault(nodes, g)
             res.configured("kind-confusion")
             res.fired("kind-confusion")
+    csv = modelgen.csv_text(model["table"])
+    for f in faults:
+        if f["kind"] == "csv" and f["op"] in ("odd-field-name", "odd-field-name-missing"):
+            # a column whose name contains format-like characters ({}, %): present in the file or not
+            odd = ODD_NAMES[f["col"] % len(ODD_NAMES)]
+            reads = [n for n in nodes if n["cmd"] == "EEMSRead"]
+            if reads:
+                tgt = reads[f["row"] % len(reads)]
+                old_name = None
+                for a in tgt["args"]:
+                    if a[0] == "InFieldName":
+                        old_name, a[1] = a[1], odd
+                if f["op"] == "odd-field-name" and isinstance(old_name, str):
+                    head, _, rest = csv.partition("\n")
+                    cols_ = head.split(",")
+                    if old_name in cols_:
+                        cols_[cols_.index(old_name)] = odd
+                        csv = ",".join(cols_) + "\n" + rest
+                        # one non-numeric cell in that column as well, half of the time
+                        if f["tok"] % 2 if "tok" in f else f["row"] % 2:
+                            body = rest.split("\n")
+                            if body and body[0]:
+                                cells = body[0].split(",")
+                                cells[cols_.index(odd)] = "n/a"
+                                body[0] = ",".join(cells)
+                                csv = ",".join(cols_) + "\n" + "\n".join(body)
+                res.configured("csv-" + f["op"])
+                res.fired("csv-" + f["op"])
     try:
         text, ledger = render(nodes, sc.get("layout") or PLAIN)
     except ValueError as exc:
         res.observe("unrenderable scenario")
         return res
-    csv = modelgen.csv_text(model["table"])
     paths = _paths(model)
     fs_faults, actor, exec_faults = [], [], []
     undecodable = False
@@ -1045,7 +1147,7 @@ def _execute13(sc):
             if new != text:
                 res.fired("text-" + f["op"])
             text = new
-        elif f["kind"] == "csv":
+        elif f["kind"] == "csv" and f["op"] not in ("odd-field-name", "odd-field-name-missing"):
             new = corrupt_csv(csv, f)
             res.configured("csv-" + f["op"])
             if new != csv:
@@ -1096,11 +1198,27 @@ def _execute13(sc):
         libraries = ("mpsim_duplib", "mpilot.libraries.eems.basic", "mpilot.libraries.eems.csv",
                      "mpilot.libraries.eems.fuzzy")
     from mpilot.exceptions import MPilotError
+    if sc["route"] == "cli":
+        # the CLI reads the file in universal-newline mode: compare it with a library run on the text it will see
+        text = text.replace("\r\n", "\n").replace("\n\r", "\n").replace("\r", "\n")
     with Hygiene():
         out = run_once(sc, log, res, "lib", text, csv, copy.deepcopy(fs_faults), copy.deepcopy(actor),
                        copy.deepcopy(exec_faults), libraries=libraries)
         lib_kind = _classify(out, MPilotError)
         res.state_keys.add(h64(["lib", lib_kind, type(out["exc"]).__name__ if out["exc"] else None]))
+        if lib_kind == "mpilot-error":
+            # the problem/solution message must be producible
+            try:
+                str(out["exc"])
+            except Exception as exc2:  # noqa
+                frame = innermost_frame(exc2)
+                res.violate("C13.message", "C13.message unprintable %s at %s:%s" % (type(exc2).__name__, frame[0], frame[1]),
+                            "str() of the %s raised %s: %s [faults: %s]" % (type(out["exc"]).__name__, type(exc2).__name__,
+                                                                             str(exc2)[:120], _fault_summary(faults, extra)))
+        # ---- follow-up operations on the same program: run again, read results (history after a failure) -----------
+        program = out.get("program")
+        if program is not None and sc.get("followups") and lib_kind in ("mpilot-error", "success"):
+            _followups(sc, res, log, out, program, MPilotError, faults, extra)
         if lib_kind == "escape":
             exc = out["exc"]
             frame = innermost_frame(exc)
@@ -1119,6 +1237,38 @@ def _execute13(sc):
     if not faults:
         res.probe("fault-free run")
     return res
+
+
+def _followups(sc, res, log, first, program, MPilotError, faults, extra):
+    """After the first run (failed or not) the client runs again and reads results: the same error lattice applies."""
+    fs = first["fs"]
+    names = [c["name"] for c in sc["model"]["cmds"]]
+    with fs, StdCapture(log):
+        for op in sc["followups"]:
+            log.emit("op-begin", op=op)
+            try:
+                if op[0] == "RUN":
+                    program.run()
+                elif op[0] == "GET":
+                    cmd = program.commands.get(names[op[1] % len(names)])
+                    if cmd is not None:
+                        cmd.result
+                outcome = "ok"
+            except SimAbort:
+                outcome = "abort"
+                break
+            except SystemExit:
+                outcome = "exit"
+            except Exception as exc:  # noqa
+                outcome = type(exc).__name__
+                if not isinstance(exc, (MPilotError, SyntaxError)):
+                    frame = innermost_frame(exc)
+                    res.violate("C13.escape", "C13.escape-followup %s at %s:%s" % (type(exc).__name__, frame[0], frame[1]),
+                                "%r after the first run: %s escaped: %s [faults: %s]"
+                                % (op, type(exc).__name__, str(exc)[:160], _fault_summary(faults, extra)))
+                    break
+            log.emit("op-end", op=op, outcome=outcome)
+            res.probe("follow-up operation after the first run: " + ("raised" if outcome not in ("ok",) else "ok"))
 
 
 def _fault_summary(faults, extra):
